@@ -1,1 +1,2 @@
 pub mod gdsreal;
+pub mod gdsspec;
